@@ -555,6 +555,13 @@ def _norm1(e, ctx):
             return h if op == 'in' else ('un', 'not', h)
         if op == 'is not':
             return ('un', 'not', ('cmp', 'is', a, b))
+        if op == 'is' and (a[0] == 'enum' or b[0] == 'enum'):
+            return ('cmp', '==', a, b)                  # enum members are singletons: identity is equality
+        # a comparison with a generation-time choice is that choice of comparisons
+        if op in ('==', '!=', '<', '<=', '>', '>=', 'in', 'not in') and b[0] == 'phi' and a[0] != 'phi':
+            return ('phi', b[1], ('cmp', op, a, b[2]), ('cmp', op, a, b[3]))
+        if op in ('==', '!=', '<', '<=', '>', '>=') and a[0] == 'phi' and b[0] != 'phi':
+            return ('phi', a[1], ('cmp', op, a[2], b), ('cmp', op, a[3], b))
         if op == 'is' and b == ('const', None):
             if a[0] == 'call' and a[1][0] == 'attr' and a[1][2] == 'get' and len(a[2]) == 1 and not a[3] and \
                     a[2][0][0] == 'call' and a[2][0][1] == ('name', 'id'):
@@ -617,6 +624,8 @@ def _norm1(e, ctx):
         return None
     if k == 'bin':
         op, a, b = e[1], e[2], e[3]
+        if op == '>>' and not _has_str(a):
+            return ('bin', '//', a, ('bin', '**', ('const', 2), b))       # on integers
         if op == '<<':
             if a == ('const', 1):
                 return ('bin', '**', ('const', 2), b)
